@@ -557,6 +557,9 @@ type wireFault struct {
 	Bit  int    `json:"bit"`
 	Code int    `json:"code"`
 	Body []byte `json:"-"`
+
+	measure *int64  // kind "measure": record the undamaged body length
+	damage  *Damage // kind "damage": structure-aware mutation of the real body
 }
 
 type pipeListener struct {
@@ -712,6 +715,15 @@ func applyWireFault(w http.ResponseWriter, rec *recorder, f *wireFault) {
 		}
 	case "garbage", "replace":
 		body = f.Body
+	case "measure":
+		*f.measure = int64(len(body))
+	case "damage":
+		body = applyDamage(body, *f.damage)
+		if f.damage.Kind == "truncate" {
+			// a framing-level truncation would be caught by Content-Length;
+			// hand the short body over as a complete response instead
+			w.Header().Del("Content-Length")
+		}
 	case "status":
 		w.Header().Set("Content-Type", "text/plain")
 		w.WriteHeader(f.Code)
